@@ -72,6 +72,20 @@ class Check:
             self.broken.append("rule %s matched %d %s, fewer than the %d confirmed by hand: "
                                "the anchor moved or the rule no longer sees it" % (rule, n, what, minimum))
 
+    def borrow(self, fn, prog, as_rule, from_rules, **kw):
+        """run a rule that belongs to another property under this property's rule id (the clause is shared)"""
+        before = len(self.instances)
+        try:
+            return self.attempt(fn, self, prog, **kw)
+        finally:
+            for i in self.instances[before:]:
+                if i["rule"] in from_rules:
+                    i["rule"] = as_rule
+            for v in self.violations:
+                if v["rule"] in from_rules:
+                    v["key"] = v["key"].replace(v["rule"], as_rule)
+                    v["rule"] = as_rule
+
     def attempt(self, fn, *args, **kw):
         """run one rule; a slot / anchor failure inside it is recorded (exit 2 unless a violation is found
         elsewhere) and does not stop the other rules of the property"""
